@@ -365,6 +365,23 @@ func liveFind(path string) (*liveRun, string) {
 	return lr, name
 }
 
+// maxCompletions = the file the receiver completed most often so far, and how often.
+func (lr *liveRun) maxCompletions() (string, int) {
+	lr.rig.mu.Lock()
+	defer lr.rig.mu.Unlock()
+	cnt := map[string]int{}
+	best, bestN := "", 0
+	for _, e := range lr.rig.events {
+		if strings.HasPrefix(e, "r-complete ") {
+			cnt[e]++
+			if cnt[e] > bestN {
+				best, bestN = e[len("r-complete "):], cnt[e]
+			}
+		}
+	}
+	return best, bestN
+}
+
 // countEvents = recorded events other than the periodic "persist".
 func (lr *liveRun) countEvents() int {
 	lr.rig.mu.Lock()
@@ -460,8 +477,17 @@ func liveExecute(lc *liveCase, timeout time.Duration) *liveResult {
 	// longest legitimate silence is the receiver's 10 s retry timer for an unknown predecessor.
 	idle := liveIdle()
 	lastN, lastChange := -1, time.Now()
+	// third watchdog, so that a livelock is reported in seconds rather than after the whole timeout: every
+	// completion of a file after its first needs a reason (a failed validation or a restart, each the
+	// consequence of an injected fault, plus at most one follow-up failure per failed validation), so a file
+	// completed more than 10 + 3 * (planned faults + restarts) times is going round in circles
+	nFaults := len(lc.tx) + len(lc.poll) + len(lc.rc) + lc.corrupt + lc.slow + len(lc.restarts)
 	for time.Now().Before(deadline) && abort == "" {
 		n := lr.countEvents()
+		if name, k := lr.maxCompletions(); k > 10+3*nFaults {
+			abort = fmt.Sprintf("livelock: %s was completed by the receiver %d times under a plan of %d faults", name, k, nFaults)
+			break
+		}
 		if n != lastN {
 			lastN, lastChange = n, time.Now()
 		} else if time.Since(lastChange) > idle {
@@ -881,3 +907,6 @@ func liveWatchdog() int {
 	}
 	return 180
 }
+
+// FailFast: a failing live run has usually run into a watchdog; four failing cases are enough to report and shrink.
+func (*liveComp) FailFast() int { return 4 }
